@@ -114,6 +114,13 @@ pub fn run(outdir: &Path, tier: &str, seed: u64, shards: usize, replay: Option<S
                 p.opts.cli_mode = true;
                 p.opts.operation_name = None;
                 p.opts.struct_name = None;
+                // sometimes an operation of a kind the schema has no root for (both paths must then fail alike,
+                // also when an ordinary object happens to be called Mutation / Subscription)
+                if rng.chance(1, 4) {
+                    if let Some(q) = crate::c06::apply_edit(&mut rng, &p, "missing_root_type") {
+                        p = q;
+                    }
+                }
                 p
             })
             .collect()
